@@ -76,5 +76,8 @@ EqUniverse(d) ==
   \cup {BareNone}
   \cup ListsOver(EqMembers \cup {BareInt}, EqMembers) \cup DictsOver(EqMembers) \cup AnysOver(EqMembers)
   \cup {SAlias("T", SInt1), SAlias("T", SStrAB), SAlias("U", SInt1), SCustom(SInt1), SCustom(SStrAB)}
+  \* unions of four (written, by the construction routes, also as (a | b) | (c | d)) and single-member variants
+  \cup {AnyOf(<<SInt1, SStrAB, BareNone, BareBool>>), AnyOf(<<SInt1, BareInt, BareNone, BareBool>>),
+        AnyOf(<<SInt1, SStrAB, BareNone, BareNone>>), AnyOf(<<SInt1, BareNone, BareBool>>)}
 
 =============================================================================
